@@ -10,6 +10,6 @@ if [ -x /verif/overlay/gen.sh ]; then /verif/overlay/gen.sh && OVERLAY="-overlay
 go build -tags verif $OVERLAY -o /verif/.work/bin/zmc ./cmd/zmc
 # the free-running -race passes of C14 and C05 need its own instrumented binary (built when C14 is asked for,
 # or always with VERIF_BUILD_RACE=1: setup.sh warms it)
-if [ "$1" = "C14" ] || [ "$1" = "C05" ] || [ -n "$VERIF_BUILD_RACE" ]; then
+if [ "$1" = "C14" ] || [ "$1" = "C05" ] || [ "$1" = "C07" ] || [ -n "$VERIF_BUILD_RACE" ]; then
   go build -race -tags verif $OVERLAY -o /verif/.work/bin/zmc-race ./cmd/zmc-race
 fi
